@@ -5,12 +5,17 @@
 (* A request is a record [k, n, close]:                                                                      *)
 (*   k = "G" GET handler with set_content(n octets)   "H" HEAD on that route        "P" POST echo (CL body)    *)
 (*       "C" POST echo, chunked request body          "T" handler throws            "R" raw body + manual CL   *)
+(*       "S204" / "S304" GET handler that sets content (n octets) and then picks the bodiless status 204 / 304;  *)
+(*       "HS204" / "HS304" HEAD on those routes                                                              *)
 (*       "L" GET handler with a LARGE body (n KiB: 64, 1024, 4096) - too large for one write step            *)
 (*       "N" no route (404)   "M" method not allowed (405)   "O" OPTIONS (204, no body, no Content-Length)    *)
 (*       "B" request line / header section that cannot be parsed (400/501/505 + close, decided by the worker) *)
 (*       "U" message length that cannot be decided (bad chunk size, bad Content-Length, CL+TE: the I/O thread *)
 (*           gives the connection up)                                                                        *)
-(*   close = the request carries Connection: close                                                           *)
+(*   sp = how the request spells its Connection field (field values are case-insensitive token lists, RFC     *)
+(*        9110 7.6.1): 0 none, 1 close, 2 Close, 3 CLOSE, 4 cLoSe, 5 "keep-alive, Close", 6 close surrounded by *)
+(*        white space, 7 Keep-Alive, 8 keep-alive.  close = the request asks for the connection to be closed =  *)
+(*        its Connection field contains the token close in ANY of these spellings (CloseSpellings)             *)
 (* Impl actions: IoExtract (handleIncomingData loop, one request per step: dispatch to the pool, or give up), *)
 (* Start (a worker takes the oldest task), Finish (the handler returns - gated handlers return when the       *)
 (* harness / the environment lets them, in ANY order), Send (one send command = one whole response, atomic    *)
@@ -41,7 +46,9 @@ VARIABLES pipe, nextIn, ioStop, ioClosed, queue, running, finished, sent, closed
           headed       \* large responses whose head has been written and whose body has not
 vars == <<pipe, nextIn, ioStop, ioClosed, queue, running, finished, sent, closedBy, wire, closed, relOrder, lock, headed>>
 
-Gated(r) == r.k \in {"G", "H", "P", "C", "T", "R", "L"}
+Gated(r) == r.k \in {"G", "H", "P", "C", "T", "R", "L", "S204", "S304", "HS204", "HS304"}
+CloseSpellings == 1..6
+ASSUME \A v \in Variants : v.close = (v.sp \in CloseSpellings)
 Closing(r) == r.close \/ r.k \in {"B", "U"}
 RespOptional(r) == r.k \in {"B", "U"}          \* "an error status or a closed connection"
 Big(r) == r.k = "L"
@@ -145,7 +152,7 @@ AllAnswered == Quiescent =>
          /\ Completed = Upto(c) \/ (RespOptional(pipe[c]) /\ Completed = Upto(c - 1))
 
 \* export of the cases: printed once per terminal state (the check removes duplicates)
-ReqJson(r) == [k |-> r.k, n |-> r.n, close |-> r.close]
+ReqJson(r) == [k |-> r.k, n |-> r.n, close |-> r.close, sp |-> r.sp]
 WantResp == LET c == FirstClosing IN IF c > N THEN N ELSE IF pipe[c].k = "U" THEN c - 1 ELSE c
 CaseOut == Quiescent => PrintT(ToJson([pipe |-> [i \in 1..N |-> ReqJson(pipe[i])], order |-> relOrder,
                                        wantResp |-> WantResp, wantClose |-> (FirstClosing <= N)]))
